@@ -99,3 +99,26 @@ CLAIMED["C17"] = dict(
     decided="ONLY the structural clauses: every metric / index file creation follows a successful removal of the len-max+1 oldest files with their index files (bounded file count); on a new second the index entry is written and flushed before that second's lines and latestOpSec advances only after the lines were written; each column the decoder stores into a MetricItem field is fed by the encoder from that same field (11 columns); every file opened by reader / searcher is closed, returned or nil on every path.",
     not_decided="the core of the property: read-back equality across rolls, the searcher's position cache, ordering / duplicates, and behaviour when a data or index file is cut at an arbitrary byte (crash points). These quantify over file contents and byte offsets that no static argument in reach bounds; reading found suspicious spots (the `v != cachedPos.metricFilename` test in getOffsetStartAndFileIdx, the index entry written to the old index file on a day roll, writeItemsAndFlush returning nil on a write error) which no sound static rule decides.")
 NA.pop("C17", None)
+
+# ---- additions after the second round of independently seeded changes (DESIGN.md section 9)
+def _add(pid, text):
+    CLAIMED[pid]["decided"] = CLAIMED[pid]["decided"].rstrip() + " ALSO: " + text
+
+_add("C01", "the resource descriptor of an entry is built from this call's own name and options (no lookup of a descriptor cached under the name only); GetOrCreateResourceNode returns on every path the node registered under the requested name or one freshly created for it, and registers a new node only after the name was found absent under the same hold of the write lock.")
+_add("C02", "no two resource names share a statistic node (same node-per-resource rule); in the builders a statistic donor is removed from the candidates once used.")
+_add("C04", "concurrent first entries of one resource end on one node (absent-rechecked-under-write-lock), so no in-flight entry is invisible to the gauge.")
+_add("C05", "the general threshold is read only as the default of the per-value choice; in the pacing checkers no integer quotient is multiplied afterwards (the interval batch*duration/threshold is not shortened by a truncated per-token cost).")
+_add("C06", "the concurrency statistic slot only adds to / subtracts from the counter cell and never removes or replaces a cell.")
+_add("C07", "the traffic type seen by the system check is the one given with this very call (resource-from-options).")
+_add("C09", "the update lock taken by TryLock is released on every path from the success branch (including loop continues).")
+_add("C10", "no integer quotient feeds a product in the pacing computation.")
+_add("C11", "every alternative returned by the warm-up calculator is the configured threshold (below the warning line) or the warning-zone rate derived from threshold, slope and stored tokens; none is a constant.")
+_add("C12", "the probe-rollback hook is registered only inside the winner's branch of the Open->HalfOpen CAS.")
+_add("C03", "the probe-rollback hook is registered only by the request that won the Open->HalfOpen CAS; the retry deadline is stored unconditionally when the breaker opens.")
+_add("C13", "the rule equality functions used to detect 'unchanged' are reflexive and cover every field, so a changed rule cannot be mistaken for the old one and stay in force.")
+_add("C14", "all unchanged rules are paired with their old objects before any old object is used as a statistic donor (two-pass builders; defect F21 fixed and guarded); no generator is invoked for an unchanged rule.")
+_add("C15", "no function acquires a read lock while (transitively) already holding the same RWMutex (recursive RLock deadlocks against a waiting writer).")
+_add("C17", "the index write is not deferred past the lines; retention lists the files of all dates.")
+_add("C18", "a Rename / Remove event re-arms the watch and reloads the file.")
+_add("C19", "a deferred closure that exits the entry does so on every path through the closure (also for non-error panic values).")
+_add("C20", "the node is marked recovered under no other condition than a nil error for a known address.")
